@@ -28,8 +28,8 @@ GEN = 'pgradd/RDkitWrapper/GenRxnNet.py'
 IS, BS = z3.IntSort(), z3.BoolSort()
 NAtoms = z3.Function('GetNumAtoms', IS, IS)
 MatchLen = z3.Function('SubstructMatchLen', IS, IS, IS)
-TRUSTED = ['the species comparison (same atom count and a full substructure match) is an equivalence relation on the species involved (assumed; '
-           'a one-directional substructure match on equal atom counts is not an equivalence in general)',
+TRUSTED = ['the code\'s species comparison (same atom count and a full substructure match) is an equivalence relation on the species involved and holds for two '
+           'molecules with the same canonical SMILES (assumed; it is COARSER than species identity: charges, isotopes, stereo marks are not compared - known finding K8)',
            'list lengths in the extracted statement are bounded by two per list: this obligation is bounded in size and not counted as a proof of the loop',
            'RDKit RunReactants, sanitisation and the over-valence filter are not modelled']
 SpCls = BuiltinClass('Species')
@@ -37,6 +37,15 @@ SpCls = BuiltinClass('Species')
 
 def iso(a, b):
     return z3.And(NAtoms(a) == NAtoms(b), NAtoms(a) == MatchLen(a, b))
+
+
+CanSmi = z3.Function('CanonicalSmiles', IS, z3.StringSort())
+
+
+def same(a, b):
+    """the SAME species: equal canonical SMILES (charges, isotopes, stereo marks included).  The code's own comparison `iso` (atom count + full
+    substructure match) is coarser: same => iso is assumed, iso => same does not hold (known finding K8)"""
+    return CanSmi(a) == CanSmi(b)
 
 
 def species_attr(I, o, name):
@@ -99,9 +108,12 @@ def u_update(I, sizes):
     pid = lambda l: [s.fields['id'] for s in l]
     # precondition: the invariant I2 for the work list (established by the seed statements, preserved by this statement)
     wl0 = pid(unprocessed) + pid(processed)
+    for a in idl:
+        for b in idl:
+            ctx.assume(z3.Implies(same(a, b), iso(a, b)))
     for i in range(len(wl0)):
         for j in range(i):
-            ctx.assume(z3.Not(iso(wl0[i], wl0[j])))
+            ctx.assume(z3.Not(same(wl0[i], wl0[j])))
     # (the products need NOT be pairwise distinct: the update compares each product with the work list as it stands at that moment)
     env = Env({'products': products, 'processed': processed, 'unprocessed': unprocessed}, Func(fn, m, None, None, 'GenerateRxnNet'), None, m, set())
     try:
@@ -118,8 +130,8 @@ def u_update(I, sizes):
         un, pr = env.local['unprocessed'], env.local['processed']
         wl = pid(un) + pid(pr)
         ps = [('processed is not touched', z3.BoolVal(pr is processed and pid(pr) == pid(processed)))]
-        ps.append(('work list stays pairwise non-isomorphic (unprocessed ++ processed): no species is listed twice',
-                   z3.And([z3.Not(iso(wl[i], wl[j])) for i in range(len(wl)) for j in range(i)]) if len(wl) > 1 else z3.BoolVal(True)))
+        ps.append(('no species is listed twice in unprocessed ++ processed (pairwise different canonical SMILES)',
+                   z3.And([z3.Not(same(wl[i], wl[j])) for i in range(len(wl)) for j in range(i)]) if len(wl) > 1 else z3.BoolVal(True)))
         ps.append(('every product is (isomorphic to) a member of the work list afterwards',
                    z3.And([z3.Or([iso(p, w) for w in wl]) for p in pid(products)])))
         old = set(x.sexpr() for x in wl0)
@@ -142,6 +154,10 @@ def replay_seeds(model, state, ob):
             'script': "from rdkit import Chem\nfrom pgradd.RDkitWrapper.GenRxnNet import GenerateRxnNet\nprint([Chem.MolToSmiles(m) for m in GenerateRxnNet(['CC', 'CC'], ['[C:1][H:2]>>[C:1].[H:2]'])])\n"}
 
 
+def _unsup_smiles():
+    raise Unsupported('MolToSmiles of something that is not a species')
+
+
 def _species_world(I, n):
     ctx = I.ctx
     W_ = I.world
@@ -153,6 +169,10 @@ def _species_world(I, n):
     W_.builtins = dict(W_.builtins)
     W_.builtins['len'] = Builtin('len', lambda I_, a, k: a[0].fields['len'] if isinstance(a[0], Obj) and a[0].cls.name == MT else orig_len.fn(I_, a, k))
     idl = [s_.fields['id'] for s_ in sp]
+    W_.externs['rdkit.Chem'].members['MolToSmiles'] = Builtin('Chem.MolToSmiles', lambda I_, a, k: CanSmi(a[0].fields['id']) if isinstance(a[0], Obj) and a[0].cls is SpCls else _unsup_smiles())
+    for a in idl:
+        for b in idl:
+            ctx.assume(z3.Implies(same(a, b), iso(a, b)))
     for a in idl:
         ctx.assume(iso(a, a))
         for b in idl:
@@ -187,7 +207,10 @@ def u_seeds(nseeds):
         seeds = _species_world(I, nseeds)
         env = Env({'initial_reactant': list(seeds)}, Func(fn, m, None, None, 'GenerateRxnNet'), None, m, set())
         pos = fn.body.index(inits[0])
-        stmts = [inits[0]] + [h for h in hits if h in fn.body and fn.body.index(h) == pos + 1]
+        ends = [i for i, n in enumerate(fn.body) if i > pos and isinstance(n, ast.Assign) and len(n.targets) == 1 and isinstance(n.targets[0], ast.Name) and n.targets[0].id == 'processed']
+        if not ends or not any(h in fn.body[pos:ends[0]] for h in hits):
+            raise Unsupported('GenerateRxnNet: the seed statements (from `unprocessed = ...` to `processed = ...`) were not found (contract out of date)')
+        stmts = fn.body[pos:ends[0]]
         out = _exec_stmts(I, stmts, env, 'seed statements')
         pid = lambda l: [s_.fields['id'] for s_ in l]
 
@@ -197,8 +220,9 @@ def u_seeds(nseeds):
                 return [('the work list is a list of species', z3.BoolVal(False))]
             wl = pid(un)
             return [('the initial work list holds no species twice (the loop invariant holds on entry, whatever seeds are given)',
-                     z3.And([z3.Not(iso(wl[i], wl[j])) for i in range(len(wl)) for j in range(i)]) if len(wl) > 1 else z3.BoolVal(True)),
-                    ('every seed is (isomorphic to) a member of the initial work list', z3.And([z3.Or([iso(p, w) for w in wl]) if wl else z3.BoolVal(False) for p in pid(seeds)])),
+                     z3.And([z3.Not(same(wl[i], wl[j])) for i in range(len(wl)) for j in range(i)]) if len(wl) > 1 else z3.BoolVal(True)),
+                    ('every seed IS a member of the initial work list (the same species: a seed that differs in charge, isotope or stereo from another one is kept)',
+                     z3.And([z3.Or([same(p, w) for w in wl]) if wl else z3.BoolVal(False) for p in pid(seeds)])),
                     ('the work list holds seeds only, in the order given', z3.BoolVal([x for x in seeds if any(x is y for y in un)] == un))]
         check_outcome(I, out, raises={}, returns=posts, site='GenerateRxnNet: seeds')
         return {'inputs': {}}
